@@ -1009,10 +1009,6 @@ func (h *RealtimeHandler) leaveSession() {
 		return
 	}
 
-	for _, m := range h.Modules {
-		m.HandleDisconnect()
-	}
-
 	session.GetEntityComponents().UnsubscribeByParticipant(participant.ID)
 
 	now := timestamppb.Now()
@@ -1034,6 +1030,13 @@ func (h *RealtimeHandler) leaveSession() {
 				EntityId:        entity.ID,
 			})
 		})
+	}
+
+	// The modules drop what is attached to the entities removed above. This
+	// is done once the entities are gone, like for an entity delete request:
+	// other participants can't attach anything to them anymore.
+	for _, m := range h.Modules {
+		m.HandleDisconnect()
 	}
 
 	if h.stopFrameHandling != nil {
